@@ -11,9 +11,12 @@ import (
 // JCS / multihash / JWS assembly, no sidetree-go builder involved). Zero
 // override fields mean "derive the honest value".
 type OpSpec struct {
-	Type   string // create | update | recover | deactivate
-	Code   uint64 // multihash code used for every hash of this operation
-	Suffix string // didSuffix (non-create)
+	Type string // create | update | recover | deactivate
+	Code uint64 // multihash code used for every hash of this operation
+	// RevealCode, when non-zero, is the code of the reveal value: the algorithm of the commitment being opened, which an
+	// earlier operation may have made under another algorithm than this operation's own hashes
+	RevealCode uint64
+	Suffix     string // didSuffix (non-create)
 
 	Patches            []interface{}
 	UpdateCommitment   string      // next update commitment (delta.updateCommitment)
@@ -95,7 +98,11 @@ func (s *OpSpec) Build(r *fw.Rand) *Built {
 		if s.Reveal != nil {
 			b.Reveal = *s.Reveal
 		} else {
-			rv, err := oracle.RevealValue(s.Code, structJWK(pk))
+			rc := s.Code
+			if s.RevealCode != 0 {
+				rc = s.RevealCode
+			}
+			rv, err := oracle.RevealValue(rc, structJWK(pk))
 			if err != nil {
 				panic(err)
 			}
